@@ -48,6 +48,10 @@ CHECKS = {
   text="Def-use, ordering and comparison-polarity facts decide, for every detector setting / post-selection / min_detection / seed, the structure of the sampling pipelines: detector -> herald test on the detector output -> herald removal -> post-selection and n_photons >= min_detection on the same visible value -> keep that value (sample_N_inputs); threshold -> heralds -> removal -> filters -> accumulate -> renormalise -> one draw of size N, all counted (sample_N_outputs); refusal of dark counts / multi-photon heralds with threshold detectors before sampling; detector stages efficiency -> dark -> threshold with correct polarity, one draw per photon / per mode; all draws derive from the seed; results are visible-space. Known finding K1 (Sampler.sample returns un-heralded full-space states) is listed in known_findings.json. Convergence of frequencies is not claimed.",
   note="Trusted: numpy Generator.choice; random.seed/random.random share the module generator; anchors are the loops over `samples` / `pdist.items()` (vanished anchor -> ANALYSIS-ERROR).",
   tech=TECH + "def-use and dominance facts on the per-sample pipeline, guard facts in comparison normal form, stage-order by configuration-field reads, random-source effect rule", ref="DESIGN.md §3 R-I, R-J, R-E, R-B4; §4 C07"),
+ "C09": dict(
+  text="Structural necessary conditions of 'rewrites preserve the transformation': rewrites assign only the component list (herald maps / mode count untouched, effect analysis), run on copies with copy-on-write components, swap compression blocks every mode of every later component kind (exhaustive per-kind field coverage, inclusive ranges), never grows the list, merges only unblocked swaps as (earlier then later) and skips the merged one; non-adjacent beam splitters become swap / oriented adjacent splitter / inverse swap, recursively inside groups; group flattening is complete and in order; copies share no container. Equality of U_full and amplitudes before/after is not claimed.",
+  note="Trusted: groups never nest (C02); copy/deepcopy semantics. Several rules recognise the current idiom of the rewriters; an unrecognised redesign gives ANALYSIS-ERROR.",
+  tech=TECH + "effect analysis (fields written), exhaustive dispatch coverage, structural pairing / ordering checks on the rewriters", ref="DESIGN.md §3 R-C, R-H, R-M5; §4 C09"),
 }
 NA = {}
 
